@@ -161,3 +161,84 @@ fn c02_q_expiry_and_close() {
     vassert!(c == was_open && p.comm_window().is_none(), "ROLE:close-closes");
     vassert!(notifs() == if was_open { 1 } else { 0 }, "ROLE:close-withdraws-the-mdns-announcement");
 }
+
+/// thorough: every sequence of 4 operations (open with arbitrary parameters / failed proof /
+/// expiry poll after an arbitrary time step / explicit close) from a fresh `Pase` stays in step
+/// with a three-variable reference model (open?, failures, expiry instant): the window is open
+/// exactly when the model says so, never survives its 20th failed proof or its expiry, and a
+/// re-opened window starts counting from zero.
+#[cfg_attr(kani, kani::proof)]
+#[cfg_attr(kani, kani::unwind(42))]
+#[cfg_attr(kani, kani::stub(embassy_time::Instant::now, crate::verif_support::stub_instant_now))]
+#[cfg_attr(not(kani), test)]
+fn c02_t_window_lifecycle_4ops() {
+    let mut p = Pase::new();
+    let mut now = any_u64();
+    assume(now < (1u64 << 60));
+    set_now(now);
+    // reference model
+    let mut m_open = false;
+    let mut m_fail: u8 = 0;
+    let mut m_exp: u64 = 0;
+    let mut step = 0;
+    while step < 4 {
+        let op = any_u8();
+        assume(op < 4);
+        match op {
+            0 => {
+                let salt_len = any_usize();
+                assume(salt_len <= 40);
+                let timeout = any_u16();
+                let r = open_basic(&mut p, salt_len, timeout, 7, None);
+                let legal = !m_open && timeout >= 180 && timeout <= 900 && salt_len >= 16 && salt_len <= 32;
+                vassert!(r.is_ok() == legal, "ROLE:open-succeeds-iff-closed-and-parameters-legal");
+                if legal {
+                    m_open = true;
+                    m_fail = 0;
+                    m_exp = now + timeout as u64 * embassy_time::TICK_HZ;
+                }
+            }
+            1 => {
+                // a few failures at once, so that 4 operations can reach the 20th
+                let k = any_u8();
+                assume(k >= 1 && k <= 20);
+                let mut i = 0;
+                while i < k {
+                    vok!(p.record_pake_failure(notify, |_, _| {}), "record");
+                    if m_open {
+                        m_fail += 1;
+                        if m_fail >= 20 {
+                            m_open = false;
+                        }
+                    }
+                    i += 1;
+                }
+            }
+            2 => {
+                let dt = any_u64();
+                assume(dt < (1u64 << 40));
+                now += dt;
+                set_now(now);
+                let r = vok!(p.check_comm_window_timeout(notify, |_, _| {}), "poll");
+                let expired = m_open && now > m_exp;
+                vassert!(r == expired, "ROLE:poll-closes-iff-now-is-past-the-expiry");
+                if expired {
+                    m_open = false;
+                }
+            }
+            _ => {
+                let c = vok!(p.close_comm_window(notify, |_, _| {}), "close");
+                vassert!(c == m_open, "ROLE:close-closes");
+                m_open = false;
+            }
+        }
+        vassert!(p.comm_window_state().is_open() == m_open, "ROLE:window-open-exactly-when-the-reference-model-says-so");
+        if m_open {
+            let w = p.comm_window().unwrap();
+            vassert!(w.pake_failures == m_fail, "ROLE:each-failure-counted-once");
+            vassert!(w.window_expiry.as_ticks() == m_exp, "ROLE:window-expires-after-the-requested-timeout");
+        }
+        step += 1;
+    }
+    vcover!(m_open && m_fail == 19);
+}
